@@ -382,3 +382,38 @@ def body_constructors(ctx, rule):
     if vis and vis.startswith("Public"):
         ctx.violation(rule, rule + "|public-enum", "the body stream enum is public: bodies can be constructed outside the crate")
     ctx.floor(rule, n, 6, what="construction sites of the body stream enum")
+
+
+def exactlen_ctor_passthrough(ctx, rule):
+    """the length-checking stream polls the entity's own stream: its constructor stores the given stream (through
+    transparent wrappers only) and the given length; an adaptor in between (take_while, filter, map ...) could drop
+    or rewrite items before the length check sees them"""
+    adt, budget, inner, pn = find_exactlen(ctx)
+    sites = aggregates(ctx.facts, adt)
+    fns = sorted({b["name"] for b, i, st in sites})
+    n = 0
+    for fn in fns:
+        b = ctx.facts.bodies[fn]
+        params = {}
+        for i in range(1, b["arg_count"] + 1):
+            s = b["locals"][i]["s"]
+            if s == "u64":
+                params["len"] = ("param", i)
+            elif "Stream" in s:
+                params["stream"] = ("param", i)
+        for o in ctx.px(fn):
+            if o.kind != "return" or not is_agg(o.value):
+                continue
+            n += 1
+            sv = agg_get(o.value, inner)
+            bv = agg_get(o.value, budget)
+            bad = []
+            if sv != params.get("stream"):
+                bad.append("the stream polled is %s, not the entity's stream as given" % short(sv, 100))
+            if bv != params.get("len"):
+                bad.append("the budget is %s, not the length given" % short(bv, 60))
+            if bad:
+                ctx.violation(rule, "%s|%s" % (rule, bad[0][:40]), "%s: %s" % (fn, "; ".join(bad)), where=F.loc(b["span"]))
+            else:
+                ctx.ok(rule, "%s stores the entity stream and the length unchanged" % fn)
+    ctx.floor(rule, n, 1, what="constructor paths of the length-checking stream")
